@@ -184,7 +184,7 @@ fn fin<T: Show>(r: Result<T, jomini::Error>) -> String {
 
 pub fn dispatch(kind: &str, a: &[&str]) -> Option<String> {
     let r = match (kind, a) {
-        ("dv.text", [path, enc, st, h]) => {
+        ("dv.text", [path, enc, st, h]) | ("dv.text.m", [path, enc, st, h, _, _]) => {
             let data = unhex(h);
             let e = parse_enc(enc);
             let mut s = None;
@@ -198,7 +198,7 @@ pub fn dispatch(kind: &str, a: &[&str]) -> Option<String> {
                 _ => return None,
             }
         }
-        ("dv.bin", [path, strat, res, fl, st, h]) => {
+        ("dv.bin", [path, strat, res, fl, st, h]) | ("dv.bin.m", [path, strat, res, fl, st, h, _, _]) => {
             let data = unhex(h);
             let res = match parse_resolver(res) {
                 Ok(r) => r,
